@@ -11,6 +11,13 @@ Streams
              a custom provider class) x sequences of LongPoll.poll and PushService._push_task on a fake channel that
              records request + metadata keyword, and (1 in 5) through the real GRPCService channel to an in-process
              loopback gRPC server that records what really arrives;
+  wirebytes  "survives serialisation", beyond what an encoder writes: the real bytes of a converted snapshot with a
+             structured change (unknown fields of every wire type inserted, records reordered, a singular scalar
+             repeated - last wins, a padded varint, truncation at a random byte, invalid UTF-8 appended), parsed by the
+             real runtime and by the Lean model's decoder: same verdict, same message;
+             (and in the snapshot / value streams the real bytes of EVERY case go to the model: it must decode them to
+             the converted message, re-encode what it decoded to the same bytes, and encode the converted message -
+             map entries in the real serialiser's order - to the same bytes)
   labelled known-finding streams: lone surrogate in a text, attribute int beyond int64, auth provider whose token
              rotates between operations (constant providers stay in the main judged stream).  (None inside a sequence
              attribute is judged normally: it must arrive as an empty value at its position.)
@@ -27,7 +34,7 @@ import core
 from rig import Rig, run_traced
 
 ID = 'C08'
-EXTRACT = ['wire']
+EXTRACT = ['wire', 'wirecodec']
 LEAN_TARGETS = ['DeepModel.Props.C08']
 AUDIT = 'DeepModel/Audit/C08.lean'
 DRIVER = 'DeepModel/Driver/C08.lean'
@@ -39,11 +46,19 @@ RULE = ('snapshot: 1-7 generated locals (ints incl. > 64 bit, floats incl. nan/i
         'frame_type single/all/none, 0-3 watches (valid, failing, large), optional log message with fields, 0-4 '
         'decorator attributes and 0-3 resource attributes (str/bool/int/float/bytes/list/tuple values); value: '
         'values through BoundedAttributes + convert_value; auth: provider {none, "", basic, custom} x credentials '
-        '{both, one, none} x 1-5 poll/push operations. Non-trivial snapshot = at least 5 table entries and (a failing '
+        '{both, one, none} x 1-5 poll/push operations; wirebytes: the real bytes of a converted snapshot (0-4 variables, '
+        '0-2 caller frames, time stamp 0 / 1 / now / 2^64-1, log message unset / empty / text, 0-3 attributes) after one '
+        'of {1-5 unknown fields of wire type 0/1/2/5 with field numbers up to 2^29-1, records reordered, an earlier '
+        'occurrence of a singular scalar, padded varints, truncation at a random byte, invalid UTF-8 appended}. '
+        'Non-trivial snapshot = at least 5 table entries and (a failing '
         'watch or a truncated value or a tuple attribute or non-BMP text). Known-finding instances only in the '
         'labelled streams. Distinct = distinct canonical JSON of the case.')
-TRUSTED = ['protobuf runtime: a constructed message serialises and parses back equal (also exercised: bytes round trip '
-           'every case); a str field accepts exactly text without surrogates, int fields their range',
+TRUSTED = ['protobuf runtime: a str field accepts exactly text without surrogates, int fields their range; the RECEIVING '
+           'runtime parses the wire format as the Lean decoder does (proved: decode(encode m) = m for the Lean codec '
+           'generated from the installed descriptors; compared byte for byte with the local upb runtime on every case, '
+           'both directions, plus unknown fields / reordering / repeated scalars / padded varints / truncation / invalid '
+           'UTF-8). Not modelled: the 10-byte varint and 2 GiB message limits, groups, merging of a repeated singular '
+           'sub-message',
            'gRPC: metadata passed to a stub call is what is sent (fake channel records the keyword argument)',
            'CPython frames / sys.settrace deliver the generated locals to the collector']
 ASSUMPTIONS = ['tracepoint args are Dict[str, str] as typed (a non-str arg value cannot enter map<string,string>)',
@@ -538,6 +553,7 @@ def convert_and_dump(snapshot):
         back = Snapshot.FromString(data)
         obs['bytes_ok'] = (back == m) and dump_msg(back) == obs['msg']
         obs['bytes'] = len(data)
+        obs['hex'] = data.hex()
     except BaseException as e:  # noqa: B902
         obs['bytes_ok'] = False
         obs['bytes_error'] = f'{type(e).__name__}: {e}'
@@ -572,6 +588,7 @@ def run_value(case):
         kv = KeyValue(key='k', value=a)
         obs['any'] = dump_any(kv.value, kv.HasField('value'))
         obs['bytes_ok'] = KeyValue.FromString(kv.SerializeToString()) == kv
+        obs['hex'] = kv.SerializeToString().hex()
     except BaseException as e:  # noqa: B902
         obs['raised'] = f'{type(e).__name__}: {e}'
     return obs
@@ -934,8 +951,137 @@ def run_uploads(case):
     return {'sources': [dump_snapshot(s) for s in snaps], 'arrived': arrived, 'notes': notes}
 
 
+# ---- wire bytes beyond what an encoder writes (independent little reader of the record structure) ----
+def _varint(data, i):
+    n, sh = 0, 0
+    while True:
+        b = data[i]
+        i += 1
+        n |= (b & 0x7F) << sh
+        sh += 7
+        if b < 0x80:
+            return n, i
+
+
+def top_records(data):
+    """[(field number, wire type, raw bytes of the whole record)] of a serialised message"""
+    out, i = [], 0
+    while i < len(data):
+        j = i
+        tag, i = _varint(data, i)
+        wt = tag & 7
+        if wt == 0:
+            _, i = _varint(data, i)
+        elif wt == 1:
+            i += 8
+        elif wt == 2:
+            n, i = _varint(data, i)
+            i += n
+        elif wt == 5:
+            i += 4
+        else:
+            raise core.Infra('unexpected wire type %d in real bytes' % wt)
+        out.append((tag >> 3, wt, data[j:i]))
+    return out
+
+
+def enc_varint(n, pad=0, limit=10):
+    """pad: extra continuation bytes (a non-canonical but valid encoding), kept within the `limit` bytes a parser
+    reads for this kind of varint (10 for values, 5 for tags and lengths)"""
+    k = 1
+    while n >> (7 * k):
+        k += 1
+    pad = max(0, min(pad, limit - k))
+    out = bytearray()
+    while n >= 0x80:
+        out.append((n & 0x7F) | 0x80)
+        n >>= 7
+    if pad:
+        out.append(n | 0x80)
+        out += b'\x80' * (pad - 1) + b'\x00'
+    else:
+        out.append(n)
+    return bytes(out)
+
+
+def mutate_bytes(data, mut):
+    """(changed bytes, the real runtime must read them as the SAME message)"""
+    import random
+    rng = random.Random(mut['seed'])
+    recs = top_records(data)
+    kind = mut['kind']
+    if kind == 'unknown-field':
+        for _ in range(mut.get('n', 1)):
+            fno = rng.choice([15, 16, 100, 2047, 2048, 536870911])
+            wt = rng.choice([0, 1, 2, 5])
+            body = {0: enc_varint(rng.choice([0, 1, 127, 128, 2 ** 63, 2 ** 64 - 1])),
+                    1: bytes(rng.randrange(256) for _ in range(8)),
+                    2: (lambda b: enc_varint(len(b)) + b)(bytes(rng.randrange(256) for _ in range(rng.choice([0, 1, 5, 200])))),
+                    5: bytes(rng.randrange(256) for _ in range(4))}[wt]
+            recs.insert(rng.randint(0, len(recs)), (fno, wt, enc_varint(fno * 8 + wt) + body))
+        return b''.join(r[2] for r in recs), True
+    if kind == 'reorder':
+        # any interleaving that keeps the relative order of records of the same field
+        groups = {}
+        for r in recs:
+            groups.setdefault(r[0], []).append(r)
+        order = [r[0] for r in recs]
+        rng.shuffle(order)
+        out = [groups[f].pop(0) for f in order]
+        return b''.join(r[2] for r in out), True
+    if kind == 'dup-scalar':
+        extra = rng.choice([enc_varint(4 * 8 + 1) + bytes(rng.randrange(256) for _ in range(8)),      # ts_nanos fixed64
+                            enc_varint(8 * 8 + 0) + enc_varint(rng.choice([0, 5, 2 ** 40])),            # duration_nanos
+                            enc_varint(10 * 8 + 2) + enc_varint(5) + 'é old'.encode()[:5],              # log_msg
+                            enc_varint(1 * 8 + 2) + enc_varint(3) + b'\x00\x01\x02'])                   # ID
+        fno = _varint(extra, 0)[0] >> 3
+        if not any(r[0] == fno for r in recs):
+            return data, True              # the field is at its default (not written): an earlier value would show
+        return extra + data, True          # the later (real) occurrence wins
+    if kind == 'padded-varint':
+        out = []
+        for fno, wt, raw in recs:
+            if wt == 0 and rng.random() < 0.8:
+                tag, i = _varint(raw, 0)
+                v, _ = _varint(raw, i)
+                raw = enc_varint(tag, pad=rng.choice([0, 1, 2]), limit=5) + enc_varint(v, pad=rng.choice([1, 2, 4]))
+            elif wt == 2 and rng.random() < 0.3:
+                tag, i = _varint(raw, 0)
+                n, j = _varint(raw, i)
+                raw = enc_varint(tag) + enc_varint(n, pad=rng.choice([1, 3]), limit=5) + raw[j:]
+            out.append(raw)
+        return b''.join(out), True
+    if kind == 'truncate':
+        return data[:rng.randrange(len(data))] if data else data, False
+    if kind == 'bad-utf8':
+        bad = rng.choice([b'\xff', b'\xc0\x80', b'\xed\xa0\x80', b'ok\xe2\x82', b'\xf4\x90\x80\x80', b'\x80',
+                          b'\xe0\x80\x80', b'\xf0\x80\x80\x80'])
+        return data + enc_varint(10 * 8 + 2) + enc_varint(len(bad)) + bad, False
+    raise ValueError(kind)
+
+
+def run_wirebytes(case):
+    from deep.push import convert_snapshot
+    from deepproto.proto.tracepoint.v1.tracepoint_pb2 import Snapshot
+    m = convert_snapshot(rich_snapshot(case['snap']))
+    if m is None:
+        return {'converted': False}
+    data = m.SerializeToString()
+    changed, same = mutate_bytes(data, case['mut'])
+    obs = {'converted': True, 'original': dump_msg(m), 'hex': changed.hex(), 'same_expected': same,
+           'changed': changed != data}
+    try:
+        obs['parsed'] = dump_msg(Snapshot.FromString(changed))
+    except BaseException as e:  # noqa: B902
+        obs['parsed'] = None
+        obs['parse_error'] = f'{type(e).__name__}: {e}'[:200]
+    return obs
+
+
 def run_impl(case):
     k = case['kind']
+    if k == 'wirebytes':
+        return run_wirebytes(case)
     if k == 'uploads':
         return run_uploads(case)
     if k == 'snapshot':
@@ -967,6 +1113,8 @@ def attr_values(case):
     elif case['kind'] == 'uploads':
         for sp in case['snaps']:
             vals += [v for _, v in sp['attrs']] + [v for _, v in sp['resource']]
+    elif case['kind'] == 'wirebytes':
+        vals += [v for _, v in case['snap']['attrs']] + [v for _, v in case['snap']['resource']]
     else:
         vals += [v for _, v in case['resource']]
         for s in case['snaps']:
@@ -1063,6 +1211,15 @@ def oracle_uploads(case, obs):
 
 def oracle(case, obs):
     k = case['kind']
+    if k == 'wirebytes':
+        # unknown fields, record order between different fields, an earlier occurrence of a singular scalar and varint
+        # padding are not part of a message: the snapshot that was sent must still be what is read
+        if obs.get('converted') and obs['same_expected']:
+            if obs['parsed'] is None:
+                return ['the serialised snapshot is refused after a content-preserving change (%s): %s'
+                        % (case['mut']['kind'], obs.get('parse_error'))]
+            return diff(canon_msg(obs['parsed']), canon_msg(obs['original']), 'after ' + case['mut']['kind'])[:3]
+        return []
     if k == 'uploads':
         return oracle_uploads(case, obs)
     v = []
@@ -1141,16 +1298,26 @@ def oracle(case, obs):
 
 def model_request(case, obs):
     k = case['kind']
+    if k == 'wirebytes':
+        if not obs.get('converted'):
+            return None
+        return {'op': 'decode', 'type': 'Snapshot', 'hex': obs['hex']}
     if k == 'uploads':
         return {'op': 'convert', 'snapshot': obs['sources'][0]}
     if k == 'snapshot':
         if not obs.get('collected') or 'raised' in obs:
             return None
-        return {'op': 'convert', 'snapshot': obs['snapshot']}
+        r = {'op': 'convert', 'snapshot': obs['snapshot']}
+        if obs.get('hex') is not None:
+            r['hex'] = obs['hex']
+        return r
     if k == 'value':
         if not obs.get('held'):
             return None
-        return {'op': 'value', 'v': obs['stored']}
+        r = {'op': 'value', 'v': obs['stored']}
+        if obs.get('hex') is not None:
+            r['hex'] = obs['hex']
+        return r
     ops = []
     cfg = case['cfg']
     mc = {'provider': cfg.get('provider'), 'username': cfg.get('username'), 'password': cfg.get('password')}
@@ -1171,10 +1338,41 @@ def model_request(case, obs):
     return {'op': 'auth', 'cfg': mc, 'ops': ops, 'fail_first': int(cfg.get('fail_first') or 0)}
 
 
+def compare_wire(obs, resp, real_msg, canon_f):
+    """the real bytes against the model's codec, both directions"""
+    d = []
+    if resp.get('decoded') is None:
+        return ['wire: the model cannot decode the bytes the real runtime produced']
+    d += diff(canon_f(resp['decoded']), canon_f(real_msg), 'wire: model-decoded real bytes vs message')[:2]
+    if resp.get('reencoded') != obs['hex']:
+        d.append('wire: the model re-encodes what it decoded from the real bytes to DIFFERENT bytes (%s)'
+                 % first_byte_diff(resp.get('reencoded') or '', obs['hex']))
+    if resp.get('encoded') is not None and resp['encoded'] != obs['hex']:
+        d.append('wire: the model encodes the converted message to bytes that differ from the real ones (%s)'
+                 % first_byte_diff(resp['encoded'], obs['hex']))
+    if resp.get('wire_roundtrip') is False:
+        d.append('wire: the model does not decode its own bytes to the message it encoded')
+    return d[:3]
+
+
+def first_byte_diff(a, b):
+    n = next((i for i in range(0, min(len(a), len(b)), 2) if a[i:i + 2] != b[i:i + 2]), min(len(a), len(b)))
+    return 'lengths %d / %d bytes, first difference at byte %d: model %s real %s' % (
+        len(a) // 2, len(b) // 2, n // 2, a[n:n + 8] or '-', b[n:n + 8] or '-')
+
+
 def compare(case, obs, resp):
     if 'error' in resp:
         return ['model error: ' + resp['error']]
     k = case['kind']
+    if k == 'wirebytes':
+        if (resp['decoded'] is None) != (obs['parsed'] is None):
+            return ['wire (%s): the real runtime %s these bytes, the model decoder %s them'
+                    % (case['mut']['kind'], 'REFUSES' if obs['parsed'] is None else 'accepts',
+                       'refuses' if resp['decoded'] is None else 'ACCEPTS')]
+        if obs['parsed'] is None:
+            return []
+        return diff(canon_msg(resp['decoded']), canon_msg(obs['parsed']), 'wire (%s): model vs runtime' % case['mut']['kind'])[:3]
     if k == 'uploads':
         mine = [m for m in obs['arrived'] if resp['msg'] is not None and m.get('ID') == resp['msg']['ID']]
         if len(mine) != 1:
@@ -1186,6 +1384,8 @@ def compare(case, obs, resp):
             d.append('model: message does not read back to the snapshot')
         if not d and resp['msg'] is not None and not resp['collectable']:
             d.append('model: the collected snapshot is outside `collectable` (ranges / sources / holdable values)')
+        if not d and obs.get('hex') is not None and obs.get('msg') is not None:
+            d += compare_wire(obs, resp, obs['msg'], canon_msg)
         return d[:4]
     if k == 'value':
         if 'raised' in obs:
@@ -1193,6 +1393,8 @@ def compare(case, obs, resp):
         d = diff(resp['any'], obs['any'], 'model-vs-implementation')
         if not resp['accepts']:
             d.append('model rejects a value the implementation sent')
+        if not d and obs.get('hex') is not None:
+            d += compare_wire(obs, resp, ['k', obs['any']], lambda x: x)
         return d
     d = []
     if case.get('concurrent'):
@@ -1447,6 +1649,19 @@ def gen_uploads(rng):
     return {'kind': 'uploads', 'stream': 'main', 'snaps': snaps}
 
 
+def gen_wirebytes(rng):
+    tag = rng.choice(['A', 'B', 'dé', '中'])
+    snap = {'tag': tag, 'n_vars': rng.randint(0, 4), 'n_frames': rng.randint(0, 2),
+            'ts': rng.choice([0, 1, 1_700_000_000_000_000_000, 2 ** 64 - 1]), 'log': rng.choice([None, '', 'log of ' + tag]),
+            'error_watch': rng.choice([None, 'boom', '-']),
+            'attrs': [gen_attr(rng, i) for i in range(rng.choice([0, 1, 3]))],
+            'resource': [gen_attr(rng, 10 + i) for i in range(rng.choice([0, 1]))]}
+    kind = rng.choice(['unknown-field', 'unknown-field', 'reorder', 'dup-scalar', 'padded-varint', 'truncate', 'truncate',
+                       'bad-utf8'])
+    return {'kind': 'wirebytes', 'stream': 'main', 'snap': snap,
+            'mut': {'kind': kind, 'seed': rng.randrange(2 ** 32), 'n': rng.choice([1, 2, 5])}}
+
+
 def gen_rotating(rng):
     """a provider whose token rotates / expires between operations (labelled: known finding)"""
     n = rng.randint(2, 6)
@@ -1488,8 +1703,8 @@ def gen(rng, tier):
             kind = rng.choice(['snapshot', 'snapshot', 'value', 'auth'])
             yield {'snapshot': gen_snapshot, 'value': gen_value, 'auth': gen_auth}[kind](rng, stream)
             continue
-        c = gen_snapshot(rng) if r < 0.62 else gen_uploads(rng) if r < 0.66 else gen_value(rng) if r < 0.80 \
-            else gen_auth(rng)
+        c = gen_snapshot(rng) if r < 0.58 else gen_uploads(rng) if r < 0.61 else gen_wirebytes(rng) if r < 0.68 \
+            else gen_value(rng) if r < 0.81 else gen_auth(rng)
         if clean(c):
             yield c
 
@@ -1513,6 +1728,10 @@ def corpus():
          'attrs': [['a_A', ['p', 'q']]], 'resource': [['r_A', 'res A']]},
         {'tag': 'B', 'n_vars': 5, 'n_frames': 2, 'ts': 1_700_000_000_000_000_001, 'log': None, 'error_watch': '-',
          'attrs': [['a_B', {'sub': 'HTTPStatus.OK'}]], 'resource': [['r_B', {'sub': 'Color.RED'}]]}]}
+    def wb(kind, seed):
+        return {'kind': 'wirebytes', 'stream': 'main', 'mut': {'kind': kind, 'seed': seed, 'n': 2},
+                'snap': {'tag': 'dé', 'n_vars': 2, 'n_frames': 1, 'ts': 1_700_000_000_000_000_000, 'log': 'log é',
+                         'error_watch': 'boom', 'attrs': [['a', ['p', None, 2.5]], ['n', -1]], 'resource': [['r', 'x']]}}
     emptyerr = dict(base, names=['v0', 'mkjob'], nested=False, attrs=[], resource=[],
                     locals=[{'k': 'int', 'v': 3}, {'k': 'jobfactory', 'exc': 'CancelledError', 'msg': ''}],
                     args={'log_msg': 'job={mkjob()}'}, watches=['v0', 'mkjob()', '1/0'])
@@ -1525,6 +1744,9 @@ def corpus():
                           ['ratio', {'sub': 'Ratio(0.25)'}]], resource=[['level', {'sub': 'Level.HIGH'}],
                                                                         ['prio', {'sub': 'Prio.TOP'}]]),
         {'kind': 'value', 'stream': 'main', 'v': {'sub': 'HTTPStatus.OK'}},
+        {'kind': 'value', 'stream': 'main', 'bounded': False, 'v': {'a': [1, {'b': [None, -1, 2.5, {'bytes': [0, 255]}]}], 'é': {}}},
+        wb('unknown-field', 1), wb('reorder', 2), wb('dup-scalar', 3), wb('padded-varint', 4), wb('truncate', 5),
+        wb('bad-utf8', 6),
         emptyerr,                                                               # an error watch whose text is ''
         {'kind': 'auth', 'stream': 'main', 'cfg': {'provider': 'props.c08.ScriptedProvider', 'fail_first': 1,
                                                    'custom_md': [['authorization', 'Bearer s3cr3t'], ['x-tenant', 'acme']]},
@@ -1584,6 +1806,9 @@ def label(case, obs):
     k = case['kind']
     s = case.get('stream', 'main')
     pre = f'{k}/' + ('' if s == 'main' else 'seq-none/' if s == 'seq-none' else f'KNOWN:{s}/')
+    if k == 'wirebytes':
+        return pre + case['mut']['kind'] + ('/not-converted' if not obs.get('converted') else
+                                            '/read' if obs['parsed'] is not None else '/refused')
     if k == 'uploads':
         return pre + '%d-at-once' % len(case['snaps']) + ''.join('/' + n for n in obs.get('notes', []))
     if k == 'snapshot':
@@ -1607,6 +1832,8 @@ def nontrivial(case, obs):
     k = case['kind']
     if case.get('stream', 'main') not in ('main', 'seq-none'):
         return False
+    if k == 'wirebytes':
+        return bool(obs.get('converted')) and bool(obs.get('changed'))
     if k == 'uploads':
         return not obs.get('notes')
     if k == 'snapshot':
